@@ -42,6 +42,10 @@ def gen(rng, tier):
     return B.gen(rng, tier, "C12")
 
 
+def canon(side, line):
+    return B.canon(side, line)
+
+
 def monitor(ops, outs):
     return B.monitor_c12(ops, outs)
 
